@@ -551,6 +551,11 @@ static int run_record(unsigned long seed, int tier, const char *out) {
 		TMCG_PublicKey pk(*sk);
 		log_obj(tr, "public part of a generated key", jkey(pk), pk);
 	}
+	// a key for a user whose name contains the character that separates the fields of a key (the generator takes any name)
+	{
+		TMCG_SecretKey sk("Alice|Bob", "alice@gaos.org", 512, false);
+		log_obj(tr, "generated secret key, name 'Alice|Bob'", jkey(sk), sk);
+	}
 	// 2. quadratic-residue coding: cards, stacks and stack secrets made by the toolbox for 2 and 3 players
 	for (size_t players = 2; players <= (tier ? 4u : 3u); players++) {
 		SchindelhauerTMCG tmcg(16, players, 3);
